@@ -76,6 +76,7 @@ const (
 	StratUniform Strategy = iota
 	StratBursty
 	StratPCT
+	StratDelay
 	NumStrategies
 )
 
@@ -104,6 +105,8 @@ type Sim struct {
 	BurstDen    int
 	pctChange   map[int]bool
 	pctLow      int
+	delays      []*delayRule
+	delayedTill map[*Task]int
 	PermuteMaps bool // map iteration order is drawn from the tape
 	AutoAdvance bool // when nothing is runnable, jump the clock to the next timer
 
@@ -288,10 +291,70 @@ func (s *Sim) pick(r []*Task) int {
 				}
 			}
 			return bi
+		case StratDelay:
+			// Targeted delay: when a task is about to perform its k-th operation
+			// of a chosen class it is parked for a while (as long as anyone else
+			// can run): a long preemption at an interesting point.
+			for _, t := range r {
+				for _, d := range s.delays {
+					if d.fired || !strings.Contains(t.Label, d.class) {
+						continue
+					}
+					key := [2]int{t.ID, t.Steps}
+					if d.seen[key] {
+						continue
+					}
+					d.seen[key] = true
+					d.count++
+					if d.count == d.k {
+						d.fired = true
+						s.delayedTill[t] = s.Steps + d.dur
+					}
+				}
+			}
+			var free []int
+			for i, t := range r {
+				if s.delayedTill[t] <= s.Steps {
+					free = append(free, i)
+				}
+			}
+			if len(free) == 0 {
+				return rng.Intn(n)
+			}
+			if r[0] == s.last && s.delayedTill[r[0]] <= s.Steps && rng.Intn(4) != 0 {
+				return 0
+			}
+			return free[rng.Intn(len(free))]
 		default:
 			return rng.Intn(n)
 		}
 	})
+}
+
+type delayRule struct {
+	class string
+	k     int
+	dur   int
+	count int
+	fired bool
+	seen  map[[2]int]bool
+}
+
+// SetDelay selects the targeted-delay strategy: n rules, each "park the task
+// that is about to perform the k-th operation whose label contains <class> for
+// <dur> steps". Rules come from the tape's PRNG and are not recorded: replay
+// reads the resulting choices.
+func (s *Sim) SetDelay(classes []string, n int) {
+	s.Strat = StratDelay
+	s.delayedTill = map[*Task]int{}
+	s.delays = nil
+	if s.Tape.Replay || len(classes) == 0 {
+		return
+	}
+	for i := 0; i < n; i++ {
+		s.delays = append(s.delays, &delayRule{class: classes[s.Tape.Rng.Intn(len(classes))], k: 1 + s.Tape.Rng.Intn(10),
+			dur: 20 + s.Tape.Rng.Intn(300), seen: map[[2]int]bool{}})
+	}
 }
 
 // SetPCT selects the PCT strategy with d priority-change points spread over
